@@ -60,6 +60,11 @@ Theorem C09_translated_uniquifier_is_model : forall (f : nat -> obj),
 Proof. exact uniquifier_init_refines. Qed.
 Print Assumptions C09_translated_uniquifier_is_model.
 
+(* ... and the unique objects the constructor keeps are the model's unique_objs *)
+Theorem C09_translated_unique_objs_are_model : forall ids, uniq_new ids [] 0 = unique_objs ids.
+Proof. exact uniq_new_is_unique_objs. Qed.
+Print Assumptions C09_translated_unique_objs_are_model.
+
 (* ---- PureFunction.set_objparams / restore_objparams / _check_identical_objs of xitorch/_core/pure_function.py as translated
    from /repo on this run (Gen/PyPureFn.v): they ARE the transitions set_obj / restore_obj of the model the theorems above are
    about, and - directly on the translated code - a substitution followed by its restoration gives back the object store, the
